@@ -1,5 +1,6 @@
 //! Workload generators (pure functions of seed + index).
 pub mod hist;
 pub mod prog;
+pub mod stmt;
 pub mod text;
 pub mod toks;
